@@ -148,4 +148,168 @@ extern uint32_t w_ret;
 #define L_compare_1 CMP_LOOP
 #define H_compare_1 VCANARY();
 
+#ifdef HUFF_WITH_CODES
+/* ================================================================================================
+ * igzip/huff_codes.c
+ * ============================================================================================== */
+
+/* RFC 1951 symbol of a distance / a length: the symbol whose "Dist"/"Length(s)" range contains it */
+#define C_convert_dist_to_dist_sym                                                                 \
+        __CPROVER_requires(1 <= dist && dist <= 32768)                                             \
+        __CPROVER_assigns()                                                                        \
+        __CPROVER_ensures(__CPROVER_return_value < 30 &&                                           \
+                          rfc_dist_base[__CPROVER_return_value < 30 ? __CPROVER_return_value : 0] <= dist && \
+                          dist <= rfc_dist_last[__CPROVER_return_value < 30 ? __CPROVER_return_value : 0])
+#define CL_IDX ((__CPROVER_return_value >= 257 && __CPROVER_return_value <= 285) ? __CPROVER_return_value - 257 : 0)
+#define C_convert_length_to_len_sym                                                                \
+        __CPROVER_requires(3 <= length && length <= 258)                                           \
+        __CPROVER_assigns()                                                                        \
+        __CPROVER_ensures(__CPROVER_return_value >= 257 && __CPROVER_return_value <= 285 &&        \
+                          rfc_len_base[CL_IDX] <= length && length <= rfc_len_last[CL_IDX])
+
+/* are_hufftables_useable: ret == 0 ==> any literal/EOB code + any length code with its RFC extra bits +
+ * any distance code with its RFC extra bits fit the 56 bits the bit buffer accepts between flushes
+ * (MAX_BITBUF_BIT_WRITE; the level-0 kernels emit literal+length+distance with one write_bits).
+ * Ghost indices: g_lit (any lit/len-alphabet symbol), g_lsym (length symbol), g_dsym (distance symbol).
+ * All 29 length symbols 257..285 (285 = length 258, no extra bits) and all 30 distance symbols count:
+ * the pinned tree skipped 285 (finding C18-useable-285, repaired by the fix: commit in /repo). */
+extern uint32_t g_lit, g_lsym, g_dsym;
+#define C_are_hufftables_useable                                                                   \
+        __CPROVER_requires(__CPROVER_is_fresh(lit_len_hufftable, 286 * sizeof(struct huff_code)))  \
+        __CPROVER_requires(__CPROVER_is_fresh(dist_hufftable, 30 * sizeof(struct huff_code)))      \
+        __CPROVER_requires(g_lit < 286 && 257 <= g_lsym && g_lsym <= 285 && g_dsym < 30)  \
+        __CPROVER_assigns()                                                                        \
+        __CPROVER_ensures(__CPROVER_return_value == 0 || __CPROVER_return_value == 1)              \
+        __CPROVER_ensures(__CPROVER_return_value == 0 ==>                                          \
+                          (uint32_t) lit_len_hufftable[g_lit].length +                             \
+                                          ((uint32_t) lit_len_hufftable[g_lsym].length +           \
+                                           rfc_len_extra[g_lsym - 257]) +                          \
+                                          ((uint32_t) dist_hufftable[g_dsym].length +              \
+                                           rfc_dist_extra[g_dsym]) <=                              \
+                                  56)
+#define L_are_hufftables_useable_1                                                                 \
+        __CPROVER_assigns(i, max_lit_code_len)                                                     \
+        __CPROVER_loop_invariant(0 <= i && i <= 286 && 0 <= max_lit_code_len && max_lit_code_len <= 255 && \
+                                 (g_lit < (uint32_t) i ==>                                         \
+                                  lit_len_hufftable[g_lit].length <= max_lit_code_len))            \
+        __CPROVER_decreases(286 - i)
+#define H_are_hufftables_useable_1 VCANARY();
+/* the code derives the extra-bit count from a running counter (264, +4): the invariant ties it to the RFC table */
+#define L_are_hufftables_useable_2                                                                 \
+        __CPROVER_assigns(i, max_len_code_len, gain_len_extra_bits, len_extra_bits)                \
+        __CPROVER_loop_invariant(257 <= i && i <= 285 && 0 <= max_len_code_len && max_len_code_len <= 260 && \
+                                 0 <= len_extra_bits && len_extra_bits <= 6 &&                     \
+                                 gain_len_extra_bits == 264 + 4 * len_extra_bits &&                \
+                                 (i <= 284 ==> len_extra_bits == rfc_len_extra[i <= 284 ? i - 257 : 0]) && \
+                                 (i == 285 ==> len_extra_bits == 6) &&                             \
+                                 ((g_lsym < (uint32_t) i && g_lsym <= 284) ==>                     \
+                                  lit_len_hufftable[g_lsym].length + rfc_len_extra[g_lsym <= 284 ? g_lsym - 257 : 0] <= \
+                                          max_len_code_len))                                       \
+        __CPROVER_decreases(285 - i)
+#define H_are_hufftables_useable_2 VCANARY();
+#define L_are_hufftables_useable_3                                                                 \
+        __CPROVER_assigns(i, max_dist_code_len, gain_dist_extra_bits, dist_extra_bits)             \
+        __CPROVER_loop_invariant(0 <= i && i <= 30 && 0 <= max_dist_code_len && max_dist_code_len <= 270 && \
+                                 0 <= dist_extra_bits && dist_extra_bits <= 14 &&                  \
+                                 gain_dist_extra_bits == 3 + 2 * dist_extra_bits &&                \
+                                 (i <= 29 ==> dist_extra_bits == rfc_dist_extra[i <= 29 ? i : 0]) && \
+                                 (i == 30 ==> dist_extra_bits == 14) &&                            \
+                                 (g_dsym < (uint32_t) i ==>                                        \
+                                  dist_hufftable[g_dsym].length + rfc_dist_extra[g_dsym] <= max_dist_code_len)) \
+        __CPROVER_decreases(30 - i)
+#define H_are_hufftables_useable_3 VCANARY();
+
+/* ------------------------------------------------------------------------------------------------
+ * write_rl: run-length coding of one run (value v = last_len repeated run_len times) in the RFC 1951
+ * 3.2.7 code-length alphabet.  spec_rl_* is the greedy (longest repeat first) coding in closed form;
+ * that this coding is RFC-valid and expands to exactly run_len copies of v is the lemma
+ * h_spec_rl_valid (prefix-sum witness spec_rl_P, checked at an arbitrary ghost position).
+ * ---------------------------------------------------------------------------------------------- */
+/* Euclidean decompositions are passed in as ghost scalars (tied by requires) so that no clause divides:
+ *   run     == 138*k0 + r0, 1 <= r0 <= 138      (zero runs: k0 maximal repeats of 138, then r0)
+ *   run - 1 == 6*k1 + r1,   1 <= r1 <= 6  or run == 1 and k1 == r1 == 0   (after the first literal length) */
+extern uint32_t g_k0, g_r0, g_k1, g_r1;
+#define RL_DECOMP(run)                                                                             \
+        (g_k0 <= (run) / 2 && g_k1 <= (run) / 2 && (run) == 138 * g_k0 + g_r0 && 1 <= g_r0 && g_r0 <= 138 && \
+         ((run) == 1 ? (g_k1 == 0 && g_r1 == 0) : ((run) - 1 == 6 * g_k1 + g_r1 && 1 <= g_r1 && g_r1 <= 6)))
+static inline uint32_t
+spec_rl_n(uint32_t v, uint32_t run, uint32_t k0, uint32_t r0, uint32_t k1, uint32_t r1)
+{
+        return v == 0 ? k0 + (r0 == 2 ? 2u : 1u) : (run == 1 ? 1u : 1u + k1 + (r1 == 2 ? 2u : 1u));
+}
+static inline uint32_t
+spec_rl_code(uint32_t v, uint32_t run, uint32_t k0, uint32_t r0, uint32_t k1, uint32_t r1, uint32_t i)
+{
+        return v == 0 ? (i < k0 ? 18u : r0 > 10 ? 18u : r0 > 2 ? 17u : 0u)
+                      : (i == 0 ? v : i <= k1 ? 16u : r1 >= 3 ? 16u : v);
+}
+static inline uint32_t
+spec_rl_extra(uint32_t v, uint32_t run, uint32_t k0, uint32_t r0, uint32_t k1, uint32_t r1, uint32_t i)
+{
+        return v == 0 ? (i < k0 ? 127u : r0 > 10 ? r0 - 11 : r0 > 2 ? r0 - 3 : 0u)
+                      : (i == 0 ? 0u : i <= k1 ? 3u : r1 >= 3 ? r1 - 3 : 0u);
+}
+/* prefix sums of the expansion: P(i) = number of code lengths produced by entries 0..i-1 */
+static inline uint32_t
+spec_rl_P(uint32_t v, uint32_t run, uint32_t k0, uint32_t r0, uint32_t k1, uint32_t r1, uint32_t i)
+{
+        return v == 0 ? (i <= k0 ? 138 * i : (i == k0 + 1 && r0 == 2) ? 138 * k0 + 1 : run)
+                      : (i == 0 ? 0u : i <= k1 + 1 ? 1 + 6 * (i - 1) : (i == k1 + 2 && r1 == 2) ? 6 * k1 + 2 : run);
+}
+/* histogram of the emitted symbols */
+static inline uint32_t
+spec_rl_count(uint32_t v, uint32_t run, uint32_t k0, uint32_t r0, uint32_t k1, uint32_t r1, uint32_t c)
+{
+        return v == 0 ? (c == 18 ? k0 + (r0 > 10 ? 1u : 0u)
+                                 : c == 17 ? ((r0 > 2 && r0 <= 10) ? 1u : 0u) : c == 0 ? (r0 == 1 ? 1u : r0 == 2 ? 2u : 0u) : 0u)
+                      : (c == v    ? 1u + (run == 1 ? 0u : r1 == 1 ? 1u : r1 == 2 ? 2u : 0u)
+                         : c == 16 ? (run == 1 ? 0u : k1 + (r1 >= 3 ? 1u : 0u))
+                                   : 0u);
+}
+#define RL_ARGS(v, run) (v), (run), g_k0, g_r0, g_k1, g_r1
+extern uint32_t g_c; /* ghost code-length symbol 0..18 */
+#ifndef RL_MAXRUN
+#define RL_MAXRUN 0x7fffffffu
+#endif
+#define RL_N spec_rl_n(RL_ARGS(last_len, run_len))
+#define C_write_rl                                                                                 \
+        __CPROVER_requires(last_len <= 15 && 1 <= run_len && run_len <= RL_MAXRUN && RL_DECOMP(run_len)) \
+        __CPROVER_requires(__CPROVER_is_fresh(pout, RL_N * sizeof(struct rl_code)))                \
+        __CPROVER_requires(__CPROVER_is_fresh(counts, 19 * sizeof(uint64_t)))                      \
+        __CPROVER_requires(g_c < 19)                                                               \
+        __CPROVER_assigns(__CPROVER_object_whole(pout), __CPROVER_object_whole(counts))            \
+        __CPROVER_ensures(__CPROVER_return_value == pout + RL_N)                                   \
+        __CPROVER_ensures(g_k < RL_N ==> (pout[g_k].code == spec_rl_code(RL_ARGS(last_len, run_len), g_k) && \
+                                          pout[g_k].extra_bits == spec_rl_extra(RL_ARGS(last_len, run_len), g_k))) \
+        __CPROVER_ensures(counts[g_c] == __CPROVER_old(counts[g_c]) + spec_rl_count(RL_ARGS(last_len, run_len), g_c))
+/* j = entries written so far = (pout - entry)/2 */
+#define RL_J ((__CPROVER_POINTER_OFFSET(pout) - __CPROVER_POINTER_OFFSET(__CPROVER_loop_entry(pout))) / 2)
+#define L_write_rl_1                                                                               \
+        __CPROVER_assigns(pout, run_len, __CPROVER_object_whole(pout), counts[18])                 \
+        __CPROVER_loop_invariant(__CPROVER_same_object(pout, __CPROVER_loop_entry(pout)) &&        \
+                                 __CPROVER_POINTER_OFFSET(pout) >= __CPROVER_POINTER_OFFSET(__CPROVER_loop_entry(pout)) && \
+                                 ((__CPROVER_POINTER_OFFSET(pout) - __CPROVER_POINTER_OFFSET(__CPROVER_loop_entry(pout))) & 1) == 0 && \
+                                 1 <= run_len && run_len <= __CPROVER_loop_entry(run_len) &&       \
+                                 run_len + 138 * RL_J == __CPROVER_loop_entry(run_len) &&          \
+                                 counts[18] == __CPROVER_loop_entry(counts[18]) + RL_J &&          \
+                                 (g_k < RL_J ==> (__CPROVER_loop_entry(pout)[g_k].code == 18 &&    \
+                                                  __CPROVER_loop_entry(pout)[g_k].extra_bits == 127))) \
+        __CPROVER_decreases(run_len)
+#define H_write_rl_1 VCANARY();
+#define L_write_rl_2                                                                               \
+        __CPROVER_assigns(pout, run_len, __CPROVER_object_whole(pout), counts[16])                 \
+        __CPROVER_loop_invariant(__CPROVER_same_object(pout, __CPROVER_loop_entry(pout)) &&        \
+                                 __CPROVER_POINTER_OFFSET(pout) >= __CPROVER_POINTER_OFFSET(__CPROVER_loop_entry(pout)) && \
+                                 ((__CPROVER_POINTER_OFFSET(pout) - __CPROVER_POINTER_OFFSET(__CPROVER_loop_entry(pout))) & 1) == 0 && \
+                                 1 <= run_len && run_len <= __CPROVER_loop_entry(run_len) &&       \
+                                 run_len + 6 * RL_J == __CPROVER_loop_entry(run_len) &&            \
+                                 counts[16] == __CPROVER_loop_entry(counts[16]) + RL_J &&          \
+                                 (g_k >= 1 && g_k - 1 < RL_J ==>                                   \
+                                  (__CPROVER_loop_entry(pout)[g_k - 1].code == 16 &&               \
+                                   __CPROVER_loop_entry(pout)[g_k - 1].extra_bits == 3)))          \
+        __CPROVER_decreases(run_len)
+#define H_write_rl_2 VCANARY();
+
+#endif /* HUFF_WITH_CODES */
+
 #endif
